@@ -705,8 +705,9 @@ def check_C15(report, tier, seed, replay=None):
             before = rc.dump()
             # the functional specification (ms/Spec.v, theorem C15_session_refines_spec) on the server state before
             spec = None
-            if op[0] not in ("connect", "capability"):
+            if op[0] != "connect":
                 spec = drv.ask("spec_op %d %s" % (1 if version else 0, I.op_tokens(op)))
+            caps = drv.ask("spec_caps") if op[0] == "capability" else None
             ri, rm, _ = rc.both(op)
             after = rc.dump()
             trace.append(ri)
@@ -727,6 +728,13 @@ def check_C15(report, tier, seed, replay=None):
                                  dict(desc, step=j))
             elif spec == "none":
                 report.count("spec-undefined:" + op[0])
+            if caps is not None:
+                report.count("spec-capability")
+                got = ri.split(" ")[0]
+                if got != "D:" + caps:
+                    mismatch = True
+                    report.broke("correspondence C15 (CAPABILITY: the text the reference server writes vs what the real client returns)",
+                                 "step %d client=%r server text=%r" % (j, got, caps), dict(desc, step=j))
             if mismatch:
                 report.broke("correspondence C15 (session step: model client vs real client)",
                              "step %d %r impl=%r model=%r" % (j, op, ri, rm), dict(desc, step=j))
